@@ -48,7 +48,7 @@ def column(draw):
                 "label": "long"}
     kind = draw(st.sampled_from(["int", "float-int", "float-frac", "float-mixed", "obj",
                                  "strdtype", "float-allnan", "empty-int", "empty-float",
-                                 "empty-obj"]))
+                                 "empty-obj", "float-twins"]))
     n = 0 if kind.startswith("empty") else draw(st.integers(1, 8))
     if kind in ("int", "empty-int"):
         vals = draw(st.lists(st.integers(-10 ** 6, 10 ** 12), min_size=n, max_size=n))
@@ -65,6 +65,15 @@ def column(draw):
         return {"kind": "float", "values": [], "label": kind}
     if kind == "float-allnan":
         return {"kind": "float", "values": [NAN] * n, "label": kind}
+    if kind == "float-twins":
+        # values that compare equal (or nearly) but print differently: a conversion that
+        # goes through equality / hashing / rounding of the values mixes them up
+        twins = [0.0, -0.0, 0.3, 0.30000000000000004, 1.0, 1.0000000000000002, 1e16,
+                 1.0000000000000002e16, 0.5, -0.5, 2.5]
+        vals = draw(st.lists(st.sampled_from(twins), min_size=max(n, 3), max_size=8))
+        if draw(st.booleans()):
+            vals[draw(st.integers(0, len(vals) - 1))] = NAN
+        return {"kind": "float", "values": vals, "label": kind}
     ints = st.sampled_from([0.0, 1.0, -3.0, 42.0, 1e6, 12345678.0, -0.0, 1e15])
     fracs = st.sampled_from([0.5, -2.25, 3.14159, 1e-3, 123456.789, 0.1])
     elem = {"float-int": ints, "float-frac": fracs, "float-mixed": st.one_of(ints, fracs)}[kind]
